@@ -102,7 +102,9 @@ B("c02-negintercept-hash-deleted", "C02", "R2.1", (TT, "    def __hash__(self):\
 B("c02-hash-extra-field", "C02", "R2.1", (TT, "        return hash(tuple(self.components))", "        return hash((tuple(self.components), self.kind))"))
 B("c02-lazycall-eq-unguarded", "C02", "R2.1", (CR, "        if not isinstance(other, type(self)):\n            return False\n        return (\n            self.callee == other.callee", "        return (\n            self.callee == other.callee"))
 B("c02-term-eq-unguarded", "C02", "R2.1", (TT, "        if not isinstance(other, type(self)):\n            return False\n        else:\n            return self.components == other.components", "        return self.components == other.components"))
-B("c02-term-add-model-branch-deleted", "C02", "R2.2", (TT, "        elif isinstance(other, type(self)):\n            return Model(self, other)\n        elif isinstance(other, Model):\n            return Model(self) + other\n", "        elif isinstance(other, type(self)):\n            return Model(self, other)\n"))
+B("c02-term-add-model-branch-deleted", "C02", "R2.2", (TT, "            # \"x + 1\" and \"x + 0\" appear in the expr side of group-specific terms: (x + 0 | g)\n            return Model(self, other)\n        elif isinstance(other, Model):\n            return Model(self) + other\n", "            # \"x + 1\" and \"x + 0\" appear in the expr side of group-specific terms: (x + 0 | g)\n            return Model(self, other)\n"))
+B("c02-term-plus-intercept-branch-removed", "C02", "R2.2", (TT, "        elif isinstance(other, (type(self), GroupSpecificTerm, Intercept, NegatedIntercept)):", "        elif isinstance(other, type(self)):"))
+B("c02-term-minus-one-keeps-intercept", "C02", "R2.6", (TT, "            return Model(self, NegatedIntercept())", "            return Model(self)"))
 B("c02-model-or-class-swapped", "C02", "R2.2", (TT, "        if isinstance(other, Term):\n            products = product(self.common_terms, [other])\n            terms = [GroupSpecificTerm", "        if isinstance(other, Intercept):\n            products = product(self.common_terms, [other])\n            terms = [GroupSpecificTerm"))
 B("c02-attribute-typo", "C02", "R2.2", (TT, "            return Term(*self.components, *other.components)", "            return Term(*self.components, *other.component)"))
 B("c02-intercept-or-term-dropped", "C02", "R2.2", (TT, "        if isinstance(other, Term):\n            return GroupSpecificTerm(self, other)\n        elif isinstance(other, Model):", "        if isinstance(other, Model):"))
